@@ -14,6 +14,7 @@ import SpectraVerif.Driver.Util
 import SpectraVerif.Model.HermSolver
 import SpectraVerif.Prelude.ScF32
 import SpectraVerif.Driver.C02
+import SpectraVerif.Driver.C05c
 
 namespace Drv.C05
 open Lin Orch
@@ -120,6 +121,7 @@ def handle : List String → Option String
   | "herm" :: rest => handleBody (α := Float) rest
   | "herm32" :: rest => handleBody (α := Float32) rest
   | "gen" :: rest => Drv.C02.handle ("gen" :: rest)      -- general family: the numeric instance `GenSolver.genKern` (Driver/C02.lean)
+  | "hermc" :: rest => Drv.C05c.handle ("hermc" :: rest)  -- HermEigsSolver, Scalar = std::complex<double>: `HermCplx.hermCplxKern` (Driver/C05c.lean)
   | _ => none
 
 end Drv.C05
